@@ -82,8 +82,8 @@ struct FlatSetEngine : EngineBase {
     MonScope m;
     std::vector<uint32_t> all;
     long visible = 0;
-    for (int i = 0; i < NS; ++i) verify_one(*S[i], *M[i], cmp, "S", all, visible);
-    verify_one(*T, *TM, cmp2, "T", all, visible);
+    for (int i = 0; i < NS; ++i) verify_one(*S[i], *M[i], M[i]->key_comp(), "S", all, visible);
+    verify_one(*T, *TM, TM->key_comp(), "T", all, visible);
     // spare vector
     {
       Snap sn;
@@ -431,6 +431,35 @@ struct FlatSetEngine : EngineBase {
     if (f != midx(m, m.find(k)) || c != (m.count(k) != 0) || cnt != m.count(k) || lb != midx(m, m.lower_bound(k)) || ub != midx(m, m.upper_bound(k)))
       violation("C03", "model.heterogeneous_lookup", fmt("heterogeneous lookup of %d disagrees with std::set", k));
   }
+  // a heterogeneous key equivalent to a run of several elements (std::set: count = length of the run, find = any element of it)
+  template <class C = Cmp>
+  typename std::enable_if<CmpTransparent<C>::value>::type hetero_run(const Set &s, const Model &m, int c2, int a) {
+    HalfKey hk{c2};
+    {
+      size_t run = 0;
+      { MonScope mm; run = m.count(hk); }
+      set_op("lookup(hetero-run)", st(a), run == 0 ? "absent" : run == 1 ? "run=1" : "run>1", fmt("S%d key/2=%d", a, c2));
+    }
+    long f = -1, lb = -1, ub = -1;
+    bool c = false;
+    size_t cnt = 0;
+    window([&] {
+      f = idx(s, s.find(hk));
+      c = s.contains(hk);
+      cnt = s.count(hk);
+      lb = idx(s, s.lower_bound(hk));
+      ub = idx(s, s.upper_bound(hk));
+    });
+    MonScope mm;
+    if (threw) return;
+    long mlb = midx(m, m.lower_bound(hk)), mub = midx(m, m.upper_bound(hk));
+    size_t mc = m.count(hk);
+    bool found_ok = mc == 0 ? f == static_cast<long>(m.size()) : (f >= mlb && f < mub);
+    if (!found_ok || c != (mc != 0) || cnt != mc || lb != mlb || ub != mub)
+      violation("C03", "model.heterogeneous_lookup", fmt("lookup of a heterogeneous key equivalent to %zu elements [%ld,%ld): find at %ld, contains %d, count %zu, bounds [%ld,%ld)", mc, mlb, mub, f, c, cnt, lb, ub));
+  }
+  template <class C = Cmp>
+  typename std::enable_if<!CmpTransparent<C>::value>::type hetero_run(const Set &, const Model &, int, int) {}
   template <class C = Cmp>
   typename std::enable_if<!CmpTransparent<C>::value>::type hetero(const Set &, const Model &, int) {}
 
@@ -471,6 +500,8 @@ struct FlatSetEngine : EngineBase {
     if (CmpTransparent<Cmp>::value) {
       set_op("lookup(hetero)", st(a), present ? "present" : "absent", fmt("S%d key=%d", a, k.key));
       hetero(s, m, k.key);
+      if (g_cut) return;
+      hetero_run(s, m, k.key >> 1, a);
     }
     // observers: key_comp()/value_comp() must be copies of the stored comparator (provenance), iterators agree, max_size
     if (rng.chance(1, 4)) {
@@ -493,7 +524,7 @@ struct FlatSetEngine : EngineBase {
       });
       {
         MonScope mm;
-        want = cmp(Val(3, 1), Val(7, 2));
+        want = m.key_comp()(Val(3, 1), Val(7, 2));
         delete e2;
         if (!threw && (kc != want || vc != want)) violation("C03", "model.key_comp", "key_comp()/value_comp() do not order like the comparator the set was constructed with");
         if (!threw && !okc) violation("C03", "model.observers_disagree", "c-prefixed / reverse iterators or max_size disagree");
@@ -609,8 +640,8 @@ struct FlatSetEngine : EngineBase {
     with_range<E>(RK_MOVE, vals, [&](auto f, auto l) { window([&] { V->assign(f, l); }); });
     VM = vals;
   }
-  Model model_from(const std::vector<Val> &vals) {
-    Model r(cmp);
+  Model model_from(const std::vector<Val> &vals, const Cmp &c) {
+    Model r(c);
     r.insert(vals.begin(), vals.end());
     return r;
   }
@@ -625,9 +656,10 @@ struct FlatSetEngine : EngineBase {
         if (threw) break;
         set_op("ctor(vector&&)", szcls(VM.size()), VM.size() > 16 ? "n>16" : "n<=16", fmt("S%d", a));
         window([&] { s.~Set(); });
-        window([&] { new (S[a]) Set(std::move(*V), cmp); });
+        Cmp cv = CmpVariant<Cmp>::make(static_cast<int>(rng.below(2)));
+        window([&] { new (S[a]) Set(std::move(*V), cv); });
         if (threw) break;
-        { MonScope mm; m = model_from(VM); VM.clear(); }
+        { MonScope mm; m = model_from(VM, cv); VM.clear(); }
         window([&] { V->clear(); });
         break;
       }
@@ -637,7 +669,7 @@ struct FlatSetEngine : EngineBase {
         set_op("operator=(vector&&)", st(a) + "|" + szcls(VM.size()), VM.size() > 16 ? "n>16" : "n<=16", fmt("S%d", a));
         window([&] { s = std::move(*V); });
         if (threw) break;
-        { MonScope mm; m = model_from(VM); VM.clear(); }
+        { MonScope mm; m = model_from(VM, m.key_comp()); VM.clear(); }  // assignment from a vector keeps the set's own comparator
         window([&] { V->clear(); });
         break;
       }
@@ -658,10 +690,11 @@ struct FlatSetEngine : EngineBase {
         int kind = EI<E>::kCopyable ? rng.below(RK_N) : RK_MOVE;
         set_op(il ? "ctor(il)" : "ctor(range)", "-", (il ? std::string("il") : std::string(rkname(kind))) + (n > 16 ? ",n>16" : ",n<=16"), fmt("S%d %s", a, vals_str(vals).c_str()));
         window([&] { s.~Set(); });
-        if (il) with_il(vals, [&](std::initializer_list<E> l) { window([&] { new (S[a]) Set(l, cmp); }); });
-        else with_range<E>(kind, vals, [&](auto f, auto l) { window([&] { new (S[a]) Set(f, l, cmp); }); });
+        Cmp cv = CmpVariant<Cmp>::make(static_cast<int>(rng.below(2)));
+        if (il) with_il(vals, [&](std::initializer_list<E> l) { window([&] { new (S[a]) Set(l, cv); }); });
+        else with_range<E>(kind, vals, [&](auto f, auto l) { window([&] { new (S[a]) Set(f, l, cv); }); });
         MonScope mm;
-        m = model_from(vals);
+        m = model_from(vals, cv);
         break;
       }
       case 4: {
@@ -671,7 +704,7 @@ struct FlatSetEngine : EngineBase {
         set_op("operator=(il)", st(a), fmt("n=%zu", n), fmt("S%d %s", a, vals_str(vals).c_str()));
         with_il(vals, [&](std::initializer_list<E> l) { window([&] { s = l; }); });
         MonScope mm;
-        m = model_from(vals);
+        m = model_from(vals, m.key_comp());  // as for std::set, assignment from an initializer list keeps the comparator
         break;
       }
       case 5: {
@@ -735,9 +768,10 @@ struct FlatSetEngine : EngineBase {
     set_op("ctor(comp)", "-", "-", "pool");
     for (int i = 0; i < NS; ++i) {
       S[i] = raw_new<Set>();
-      window([&] { new (S[i]) Set(cmp); });
+      Cmp ci = CmpVariant<Cmp>::make(i);  // comparator objects in different states where the type has state
+      window([&] { new (S[i]) Set(ci); });
       MonScope m;
-      M[i] = new Model(cmp);
+      M[i] = new Model(ci);
     }
     T = raw_new<Set2>();
     window([&] { new (T) Set2(cmp2); });
